@@ -12,6 +12,8 @@ from ..report import AnalysisError
 from ..srcmodel import unparse, norm, walk_no_nested, calls_in, fold_const
 from .common import cfg_of, facts_at, is_method_call, get_kw, fde_guard, find_stmt_node
 from . import containers as ct
+from . import tr
+from ..tracer import Tracer, callback_params
 from .tagtable import check_flag_tags
 
 PROP = 'C01'
@@ -57,128 +59,184 @@ def pyyaml_fact():
     return path
 
 
+LNI = {'_convert', '_make_generator', 'construct_object', 'construct_mapping', 'construct_sequence', 'construct_scalar', 'parse_scalar', 'resolve'}
+
+
+def _filler(repo, val, W):
+    """classify the function handed to _make_generator: (description, idempotent, kind of operation) - W is the wrapper text"""
+    if val.closure is None:
+        t = val.text
+        if t == W + '.update':
+            return ('wrapper.update', True, 'update')
+        if t == W + '.extend':
+            return ('wrapper.extend (complete list)', False, 'extend')
+        return (t[:60], False, None)
+    t, cps = Tracer(repo, no_inline=LNI, follow_exceptions=False).trace_closure(val)
+    ps = callback_params(t)
+    if len(cps) != 1 or len(ps) != 1:
+        return ('function with %d paths' % len(cps), False, None)
+    calls = [e for e in cps[0].events if e.kind == 'call' and e.attr in ('extend', 'update') and e.recv is not None and e.recv.text == W]
+    if len(calls) != 1 or len(calls[0].args) != 1:
+        return ('function without a single wrapper.extend / wrapper.update', False, None)
+    c = calls[0]
+    arg = c.args[0].text
+    if c.attr == 'update' and arg == ps[0]:
+        return ('wrapper.update', True, 'update')
+    if c.attr == 'extend' and arg == '%s[len(%s):]' % (ps[0], W):
+        return ('wrapper.extend (tail form: only the elements the wrapper does not hold yet)', True, 'extend')
+    if c.attr == 'extend' and arg == ps[0]:
+        return ('wrapper.extend (complete list)', False, 'extend')
+    return ('wrapper.%s(%s)' % (c.attr, arg[:40]), False, None)
+
+
 def r1(repo, run):
     path = pyyaml_fact()
     fi = repo.func('AwesomeyamlLoader.construct_object')
-    g = cfg_of(fi)
+    paths = tr.paths_of(repo, fi, no_inline=LNI, follow_exceptions=False)
     regs = []
-    for n in g.stmt_nodes():
-        for c in n.calls():
-            if norm(c.func) == 'self.state_generators.append':
-                regs.append((n, c))
+    for p in paths:
+        for e in p.events:
+            if e.kind == 'call' and e.callee == 'self.state_generators.append':
+                regs.append((p, e))
     if not regs:
         run.violation('C01.R1b', fi, 'deferred fill', 'no deferred fill is registered at all: containers wrapped while PyYAML is still constructing them lazily stay empty')
         return
     kinds = {}
-    verdicts = []
-    for n, c in regs:
-        facts = facts_at(g, n)
-        arg = c.args[0] if c.args else None
-        filler = None
-        tail = False
-        if isinstance(arg, ast.Call) and norm(arg.func) == 'self._make_generator' and len(arg.args) == 2:
-            f_ = arg.args[1]
-            filler = norm(f_)
-            if isinstance(f_, ast.Lambda) and len(f_.args.args) == 1 and isinstance(f_.body, ast.Call) and isinstance(f_.body.func, ast.Attribute) and f_.body.func.attr == 'extend' and len(f_.body.args) == 1:
-                v = f_.args.args[0].arg
-                w = norm(f_.body.func.value)
-                if norm(f_.body.args[0]) == '%s[len(%s):]' % (v, w):
-                    tail = True
-                    filler = '%s.extend (tail form: only the elements the wrapper does not hold yet)' % w
+    seen = set()
+    for p, e in regs:
+        gens = [g for g in p.events if g.kind == 'call' and g.attr == '_make_generator' and g.result is not None and e.args and g.result.text == e.args[0].text]
+        if not gens or len(gens[0].args) != 2:
+            raise AnalysisError('construct_object: registered generator is not self._make_generator(value, filler)')
+        g = gens[0]
+        W = p.ret.text if p.ret is not None else None
+        conv = [c for c in p.events if c.kind == 'call' and c.attr == '_convert' and c.result is not None and c.result.text == W]
+        if p.status != 'return' or not conv or not conv[0].args or conv[0].args[0].text != g.args[0].text:
+            raise AnalysisError('construct_object: the wrapper returned is not self._convert(<the value being filled>, node)')
+        desc, idempotent, op = _filler(repo, g.args[1], W)
         kind = None
-        for t, pol in facts:
+        for t, pol in e.facts:
             if pol and t.startswith('isinstance(node, yaml.'):
                 kind = t[len('isinstance(node, yaml.'):-1]
-                kinds[kind] = (filler, c, tail)
-        idempotent = tail or (filler is not None and filler.endswith('.update'))
-        guard_ok = ('deep', False) in facts and ('self.deep_construct', False) in facts
-        verdicts.append((n, c, kind, filler, idempotent, guard_ok))
-    for n, c, kind, filler, idempotent, guard_ok in verdicts:
+        if kind is None:
+            raise AnalysisError('construct_object: kind of the yaml node at a registration not decided')
+        kinds[kind] = (desc, e, op)
+        guard_ok = ('deep', False) in e.facts and ('self.deep_construct', False) in e.facts
+        if (id(e.node), guard_ok) in seen:
+            continue
+        seen.add((id(e.node), guard_ok))
         if idempotent:
-            run.ok('C01.R1', (fi.file, c.lineno, fi.qualname), unparse(c)[:110], 'idempotent filler: a container PyYAML already filled (deep construction, alias) cannot receive its entries twice')
+            run.ok('C01.R1', tr.where(fi, e), 'deferred fill of %s: %s' % (kind, desc), 'idempotent filler: a container PyYAML already filled (deep construction, alias) cannot receive its entries twice')
         elif guard_ok and kind == 'SequenceNode':
-            run.violation('C01.R1d', fi, unparse(c), 'a wrapped sequence is later extended with the *complete* PyYAML list: when the same yaml node is reached again through an alias after it was filled, the wrapper (built from the full list) receives every element twice (a: &x [1, 2] / b: {c: *x} -> c: [1, 2, 1, 2]); the guard only excludes deep construction', node=c)
+            run.violation('C01.R1d', tr.where(fi, e), 'deferred fill of %s: %s' % (kind, desc), 'a wrapped sequence is later extended with the *complete* PyYAML list: when the same yaml node is reached again through an alias after it was filled, the wrapper (built from the full list) receives every element twice (a: &x [1, 2] / b: {c: *x} -> c: [1, 2, 1, 2]); the guard only excludes deep construction')
         elif guard_ok:
-            run.ok('C01.R1', (fi.file, c.lineno, fi.qualname), unparse(c)[:90], 'only when PyYAML defers the fill (not deep and not self.deep_construct; fact from %s)' % os.path.basename(path))
+            run.ok('C01.R1', tr.where(fi, e), 'deferred fill of %s: %s' % (kind, desc), 'only when PyYAML defers the fill (not deep and not self.deep_construct; fact from %s)' % os.path.basename(path))
         else:
-            missing = [t for t in ('deep', 'self.deep_construct') if (t, False) not in facts_at(g, n)]
-            run.violation('C01.R1', fi, unparse(c), 'a non-idempotent deferred fill is registered although PyYAML may already have filled the container (guard does not imply `not %s`): elements are added twice' % '` / `not '.join(missing), node=c)
-    want = {'SequenceNode': 'extend', 'MappingNode': 'aynode.update'}
+            missing = [t for t in ('deep', 'self.deep_construct') if (t, False) not in e.facts]
+            run.violation('C01.R1', tr.where(fi, e), 'deferred fill of %s: %s' % (kind, desc), 'a non-idempotent deferred fill is registered although PyYAML may already have filled the container (guard does not imply `not %s`): elements are added twice' % '` / `not '.join(missing))
+    want = {'SequenceNode': 'extend', 'MappingNode': 'update'}
     for k, w in want.items():
         got = kinds.get(k)
         if got is None:
             run.violation('C01.R1b', fi, 'deferred fill for yaml.%s' % k, 'lazily constructed %s values are wrapped without registering their fill' % k)
-        elif (k == 'MappingNode' and got[0] != w) or (k == 'SequenceNode' and 'extend' not in (got[0] or '')):
-            run.violation('C01.R1b', fi, unparse(got[1]), '%s is filled with %s (expected %s)' % (k, got[0], w), node=got[1])
+        elif got[2] != w:
+            run.violation('C01.R1b', tr.where(fi, got[1]), 'deferred fill for yaml.%s' % k, '%s is filled with %s (expected wrapper.%s)' % (k, got[0], w))
         else:
-            run.ok('C01.R1b', (fi.file, got[1].lineno, fi.qualname), 'yaml.%s -> %s' % (k, got[0]))
+            run.ok('C01.R1b', tr.where(fi, got[1]), 'yaml.%s -> %s' % (k, got[0]))
     mg = repo.func('AwesomeyamlLoader._make_generator')
-    body = [norm(s) for s in mg.node.body]
-    if body != ['yield', 'update_fn(value)']:
-        run.violation('C01.R1b', mg, ' ; '.join(body), 'the deferred filler must yield first and then copy the (by then complete) PyYAML container once')
+    ps = mg.params()
+    okg = True
+    gp = tr.paths_of(repo, mg, follow_exceptions=False)
+    for p in gp:
+        ys = [i for i, e in enumerate(p.events) if e.kind == 'yield']
+        cs = [i for i, e in enumerate(p.events) if e.kind == 'call' and len(ps) >= 2 and e.callee == ps[-1] and len(e.args) == 1 and e.args[0].text == ps[-2]]
+        if len(ys) != 1 or len(cs) != 1 or cs[0] < ys[0]:
+            okg = False
+    if not okg or not gp:
+        run.violation('C01.R1b', mg, '_make_generator', 'the deferred filler must yield first and then copy the (by then complete) PyYAML container once')
     else:
         run.ok('C01.R1b', mg, '_make_generator: yield; update_fn(value)')
-    # the wrapper is built from the value (children copied at construction) and super() is asked with the same deep flag
-    sup = [c for c in calls_in(fi.node) if norm(c.func) == 'super().construct_object']
-    if len(sup) != 1 or norm(get_kw(sup[0], 'deep') or ast.Constant(value=None)) != 'deep':
-        raise AnalysisError('construct_object: super().construct_object(node, deep=deep) not recognised')
+    # super() is asked with the same deep flag
+    for p in paths:
+        sup = [e for e in p.events if e.kind == 'call' and e.callee == 'super().construct_object']
+        if len(sup) != 1 or sup[0].kw.get('deep') is None or sup[0].kw['deep'].text != 'deep':
+            raise AnalysisError('construct_object: super().construct_object(node, deep=deep) not recognised')
     mk = repo.func('yaml._make_node')
-    n = 0
-    for c in calls_in(mk.node):
-        if is_method_call(c, recv='loader', member=('construct_mapping', 'construct_sequence')):
-            n += 1
-            d = get_kw(c, 'deep')
-            if isinstance(d, ast.Constant) and d.value is True:
-                run.ok('C01.R1c', (mk.file, c.lineno, mk.qualname), unparse(c), 'tagged containers are complete when the node constructor copies them')
-            else:
-                run.violation('C01.R1c', mk, unparse(c), 'a tagged container is constructed lazily; the node constructor copies its children immediately and misses them', node=c)
-    if n != 2:
+    mp = tr.paths_of(repo, mk, no_inline=LNI, follow_exceptions=False)
+    done = {}
+    for p in mp:
+        for e in p.events:
+            if e.kind == 'call' and e.attr in ('construct_mapping', 'construct_sequence') and e.recv is not None and e.recv.text == 'loader':
+                d = e.kw.get('deep') or (e.args[1] if len(e.args) > 1 else None)
+                done[id(e.node)] = (e, d is not None and d.const is True)
+    if len(done) != 2:
         raise AnalysisError('_make_node: construct_mapping / construct_sequence calls not recognised')
+    for e, okd in done.values():
+        if okd:
+            run.ok('C01.R1c', tr.where(mk, e), e.callee + '(node, deep=True)', 'tagged containers are complete when the node constructor copies them')
+        else:
+            run.violation('C01.R1c', tr.where(mk, e), e.callee, 'a tagged container is constructed lazily; the node constructor copies its children immediately and misses them')
 
 
 def r2b(repo, run):
     mk = repo.func('yaml._make_node')
-    arm = None
-    for s in walk_no_nested(mk.node):
-        if isinstance(s, ast.If) and norm(s.test) == 'isinstance(node, yaml.ScalarNode)':
-            arm = s
-    for s in ast.walk(mk.node):
-        if isinstance(s, ast.If) and norm(s.test) == 'isinstance(node, yaml.ScalarNode)':
-            arm = s
-    if arm is None:
+    mp = tr.paths_of(repo, mk, no_inline=LNI, follow_exceptions=False)
+    n = 0
+    bad = None
+    for p in mp:
+        scalar = tr.fact(p, 'isinstance(node, yaml.ScalarNode)', True) or (tr.fact(p, 'isinstance(node, yaml.MappingNode)', False) and tr.fact(p, 'isinstance(node, yaml.SequenceNode)', False) and not tr.fact(p, 'isinstance(node, yaml.ScalarNode)', False))
+        if not scalar:
+            continue
+        ps_ = [e for e in p.events if e.kind == 'call' and e.callee == 'parse_scalar']
+        cs_ = [e for e in p.events if e.kind == 'call' and e.attr == 'construct_scalar']
+        raw = tr.fact(p, 'parse_scalars', False)
+        n += 1
+        if raw:
+            if not cs_ or ps_:
+                bad = 'with parse_scalars=False the scalar is not taken verbatim (loader.construct_scalar)'
+        elif len(ps_) != 1 or cs_ or [a.text for a in ps_[0].args] != ['loader', 'node']:
+            bad = 'tagged scalars are not re-parsed with parse_scalar on the parse_scalars branch (a tagged `5` would stay the string "5")'
+    if not n:
         raise AnalysisError('_make_node: scalar arm not recognised')
-    inner = [s for s in arm.body if isinstance(s, ast.If)]
-    ok = len(inner) == 1 and norm(inner[0].test) == 'not parse_scalars' and 'construct_scalar(node)' in norm(inner[0].body[0]) and 'parse_scalar(loader, node)' in norm(inner[0].orelse[0])
-    if not ok:
-        run.violation('C01.R2b', mk, norm(arm)[:160], 'tagged scalars are not re-parsed with parse_scalar on the parse_scalars branch (a tagged `5` would stay the string "5")', node=arm)
-    else:
-        run.ok('C01.R2b', (mk.file, arm.lineno, mk.qualname), 'scalar arm: parse_scalar(loader, node) unless parse_scalars is False')
-    ps = repo.func('yaml.parse_scalar')
-    f = FDE(repo)
-    res = {}
-    for style in (None, '"', "'", '|'):
-        env = {'node': Obj('node', 'object', style=style, value='5', tag='!force')}
-        try:
-            for s in ps.node.body:
-                if isinstance(s, ast.Assign) and isinstance(s.targets[0], ast.Name) and s.targets[0].id in ('plain', 'implicit'):
-                    fde_guard(lambda: f._run([s], env, ps))
-        except AnalysisError as e:
-            raise AnalysisError('parse_scalar: implicit-pair computation not in the evaluable fragment (%s)' % e)
-        res[style] = env.get('implicit')
-    bad = {k: v for k, v in res.items() if v != ((True, False) if k is None else (False, True))}
-    resolves = [c for c in calls_in(ps.node) if is_method_call(c, recv='loader', member='resolve')]
     if bad:
-        k = sorted(bad, key=str)[0]
-        run.violation('C01.R2b', ps, 'implicit pair for scalar style %r' % k, 'a tagged scalar written in style %r is resolved with implicit=%r; an untagged scalar of that style is resolved with %r, so the tag changes the value type' % (k, bad[k], (True, False) if k is None else (False, True)))
-    elif len(resolves) != 1 or norm(resolves[0].args[0]) != 'yaml.ScalarNode' or norm(resolves[0].args[2]) != 'implicit' or not norm(resolves[0].args[1]).endswith('.value'):
-        run.violation('C01.R2b', ps, unparse(resolves[0]) if resolves else 'loader.resolve', 'the tag-erased scalar is not resolved as (ScalarNode, value, implicit)')
+        run.violation('C01.R2b', mk, '_make_node scalar arm', bad)
     else:
-        run.ok('C01.R2b', ps, 'implicit pair by style: plain -> (True, False), quoted/block -> (False, True) (4 styles)')
-    co = [c for c in calls_in(ps.node) if is_method_call(c, recv='loader', member='construct_object')]
-    if len(co) != 1 or not (isinstance(get_kw(co[0], 'convert'), ast.Constant) and get_kw(co[0], 'convert').value is False):
-        run.violation('C01.R2b', ps, unparse(co[0]) if co else 'construct_object', 'the re-resolved scalar is wrapped into a node (convert must be False: the node constructor receives the plain Python value)')
+        run.ok('C01.R2b', mk, 'scalar arm: parse_scalar(loader, node) unless parse_scalars is False (%d paths)' % n)
+    ps = repo.func('yaml.parse_scalar')
+    pp = tr.paths_of(repo, ps, no_inline=LNI, follow_exceptions=False)
+    res = {}
+    other = set()
+    for style in (None, '"', "'", '|', '>'):
+        feas = [p for p in pp if tr.feasible(p, {'node.style': style})[0]]
+        if not feas:
+            raise AnalysisError('parse_scalar: no feasible path for style %r' % (style,))
+        for p in feas:
+            rs = [e for e in p.events if e.kind == 'call' and e.attr == 'resolve' and e.recv is not None and e.recv.text == 'loader']
+            co = [e for e in p.events if e.kind == 'call' and e.attr == 'construct_object' and e.recv is not None and e.recv.text == 'loader']
+            if len(rs) != 1 or len(rs[0].args) != 3:
+                raise AnalysisError('parse_scalar: loader.resolve(kind, value, implicit) not recognised')
+            r = rs[0]
+            impl = r.args[2]
+            if impl.elems is None or len(impl.elems) != 2 or any(x.const not in (True, False) for x in impl.elems):
+                raise AnalysisError('parse_scalar: implicit pair %s not evaluable' % impl.text[:40])
+            res.setdefault(style, set()).add((impl.elems[0].const, impl.elems[1].const))
+            if r.args[0].text != 'yaml.ScalarNode' or r.args[1].text not in ('copy.deepcopy(node).value', 'node.value', 'copy.copy(node).value'):
+                other.add('the tag-erased scalar is not resolved as (ScalarNode, value, implicit)')
+            if len(co) != 1 or co[0].kw.get('convert') is None or co[0].kw['convert'].const is not False:
+                other.add('the re-resolved scalar is wrapped into a node (convert must be False: the node constructor receives the plain Python value)')
+            elif not co[0].args or not any(e.kind == 'store' and e.target == co[0].args[0].text + '.tag' and e.value is not None and e.value.text == r.result.text for e in p.events):
+                other.add('the resolved tag is not assigned to the scalar that is then constructed')
+            elif co[0].args[0].text == 'node':
+                other.add('the tag of the original yaml node is overwritten (no copy)')
+    badst = {k: v for k, v in res.items() if v != {(True, False) if k is None else (False, True)}}
+    if badst:
+        k = sorted(badst, key=str)[0]
+        run.violation('C01.R2b', ps, 'implicit pair for scalar style %r' % k, 'a tagged scalar written in style %r is resolved with implicit=%r; an untagged scalar of that style is resolved with %r, so the tag changes the value type' % (k, sorted(badst[k]), (True, False) if k is None else (False, True)))
     else:
-        run.ok('C01.R2b', (ps.file, co[0].lineno, ps.qualname), unparse(co[0]))
+        run.ok('C01.R2b', ps, 'implicit pair by style: plain -> (True, False), quoted/block -> (False, True) (5 styles)')
+    for o in sorted(other):
+        run.violation('C01.R2b', ps, 'parse_scalar', o)
+    if not other:
+        run.ok('C01.R2b', ps, 'loader.construct_object(<tag-erased copy>, deep=True, convert=False)')
 
 
 # ---- R3 type deduction --------------------------------------------------------------------------
